@@ -23,6 +23,7 @@ PINS = [('plasTeX/Context.py', 'ContextItem.__getitem__'), ('plasTeX/Context.py'
         ('plasTeX/Base/LaTeX/Arrays.py', 'Array.invoke'), ('plasTeX/Base/LaTeX/Arrays.py', 'Array.CellDelimiter.invoke'),
         ('plasTeX/Base/LaTeX/Arrays.py', 'Array.EndRow.invoke'),
         ('plasTeX/Base/LaTeX/Environments.py', 'begin.invoke'), ('plasTeX/Base/LaTeX/Environments.py', 'end.invoke'),
+        ('plasTeX/__init__.py', 'NewCommand.invoke'), ('plasTeX/Context.py', 'Context.newenvironment'),
         ('plasTeX/TeX.py', 'TeX.createSubProcess'), ('plasTeX/TeX.py', 'TeX.endSubProcess'), ('plasTeX/TeX.py', 'TeX.expandTokens')]
 RULE = ('(a) API histories over 8 names x 2 characters x 5 object classes (environment begin/end pairs, a command pushed and popped by '
         'identity, \\foo/\\endfoo, a document-level environment, an environment with class-local macros, objects whose parentNode is '
@@ -32,7 +33,8 @@ RULE = ('(a) API histories over 8 names x 2 characters x 5 object classes (envir
         '(nested to depth 6, with unclosed inner groups closed by the enclosing object) and random unbalanced/malformed ones (pops '
         'without push, mismatched closers, category codes > 15); every history is observed after every operation. '
         '(b) balanced programs: nestings (depth <= 5) of {}, \\begingroup..\\endgroup, center/quote/itemize, $..$, $$..$$, \\[..\\], '
-        'tabular cells and rows, \\textbf/\\emph/\\mbox/\\footnote/\\underline arguments with \\def, \\gdef, \\newcommand, \\let, \\catcode, '
+        'tabular cells and rows, \\newenvironment-defined environments (empty / non-empty begin and end code, with and without an '
+        'argument), \\textbf/\\emph/\\mbox/\\footnote/\\underline arguments with \\def, \\gdef, \\newcommand, \\let, \\catcode, '
         '\\makeatletter/\\makeatother, \\newif, \\newcounter/\\setcounter, \\global\\def/\\global\\let and uses of the defined macros in '
         'between; all 13 local changes x 14 group kinds x 2 nestings exhaustively; plus environments closed over an unclosed group and '
         'groups closed over an unclosed environment. Non-trivial = the history has a group with a local change inside it and an observation after it closes.')
@@ -43,7 +45,7 @@ TRUSTED = ['program level: the translation of a generated program into the opera
            'ContextItem.parent as "next frame down" (argued in Model/Context.v, exercised by the frame dumps)',
            'category-table algebra (which_code, set_catcode): Model/Tokenizer.v of C01, regenerated tables Gen/Catcodes.v']
 ASSUMPTIONS = ['balanced histories do not push a document-level object inside a group (Context.push discards all frames then)',
-               'program level, main streams: numbers are terminated by \\relax; a control sequence \\let to a character is not redefined '
+               'program level, main streams: numbers are terminated by \\relax or a blank; a control sequence \\let to a character is not redefined '
                'while the alias is visible (the two excluded classes are generated in the prog-ext-* streams: known findings '
                'C04-number-lookahead, C04-redefine-char-let)']
 CASE_TIMEOUT = 20
@@ -542,6 +544,33 @@ def print_items(items):
     return ''.join(print_item(i) for i in items)
 
 
+def envdef(it, n):
+    """\\newenvironment{qeN}[nargs]{begin code #1}{end code}"""
+    return ('\\newenvironment{qe%s}%s{%s%s}{%s}' % (n, '[1]' if it[1] else '', print_items(it[2]), '#1' if it[1] else '', print_items(it[3])))
+
+
+def number_envs(items, acc):
+    """give every ['useenv', ...] item its environment name, in traversal order (stored as the last element of the item)"""
+    for it in items:
+        if it[0] == 'useenv':
+            while len(it) < 8:
+                it.append(None)
+            it[7] = 'abcdefghijklmnopqrstuvwxyz'[len(acc) % 26] + 'abcdefghijklmnopqrstuvwxyz'[(len(acc) // 26) % 26]
+            acc.append(it)
+            for sub in (it[2], it[3], it[4], it[5]):
+                number_envs(sub, acc)
+        elif it[0] == 'grp':
+            number_envs(it[2], acc)
+        elif it[0] == 'tabular':
+            for r in it[1]:
+                for c in r:
+                    number_envs(c, acc)
+        elif it[0] in ('loose-env', 'loose-grp'):
+            number_envs(it[2], acc)
+            number_envs(it[3], acc)
+    return acc
+
+
 def print_item(it):
     k = it[0]
     if k in ('def', 'gdef'):
@@ -580,6 +609,10 @@ def print_item(it):
         if it[1] == 'lettok':
             return '\\global\\let\\%s=%s' % (NAMES[it[2]], chr(it[3]))
         return '\\global\\let\\%s\\%s ' % (NAMES[it[2]], NAMES[it[3]])
+    if k == 'useenv':
+        # ['useenv', nargs, begin code, end code, argument, body, 'here'|'top', name]
+        return ((envdef(it, it[7]) if it[6] == 'here' else '') + '\\begin{qe%s}' % it[7] + ('{' + print_items(it[4]) + '}' if it[1] else '')
+                + print_items(it[5]) + '\\end{qe%s}' % it[7])
     if k == 'grp':
         kind, body = it[1], print_items(it[2])
         if kind == 'brace':
@@ -605,7 +638,10 @@ def print_item(it):
 
 
 def source(case):
-    return print_items(case['prog'])
+    import copy
+    prog = copy.deepcopy(case['prog'])
+    envs = number_envs(prog, [])
+    return ''.join(envdef(it, it[7]) for it in envs if it[6] == 'top') + print_items(prog)
 
 
 def compile_prog(case):
@@ -663,6 +699,16 @@ def compile_prog(case):
                 ops.append(['glett', it[2], it[3]])
             else:
                 ops.append(['gletm', it[2], it[3]])
+        elif k == 'useenv':
+            # NewCommand.invoke: \begin{env} = arguments, a begin-group token, the begin code; \end{env} = the end code, an
+            # end-group token: an anonymous group around begin code, body and end code
+            ops.append(['push', -1])
+            items(it[2], depth + 1)
+            if it[1]:
+                items(it[4], depth + 1)
+            items(it[5], depth + 1)
+            items(it[3], depth + 1)
+            ops.append(['pop', -1])
         elif k == 'grp':
             kind = it[1]
             if kind in ('brace', 'begingroup'):
@@ -815,6 +861,11 @@ def run_impl(case):
 
 # ---- generators (b) -------------------------------------------------------------------------------
 
+# how a number may end in the main streams: \relax, or a blank (since /repo c654904 the reader only peeks at the token after
+# the blank).  Digits directly followed by the closing token are still the known finding C04-number-lookahead (readSequence).
+NUMBER_ENDS = ['relax', 'relax', ' ']
+
+
 class PGen(object):
     def __init__(self, rng, maxdepth):
         self.rng = rng
@@ -842,7 +893,7 @@ class PGen(object):
         if r < 0.46 and alias_ok:
             return ['lettok', 7, rng.choice([120, 121])]
         if r < 0.56:
-            return ['cat', rng.choice(CHARS), rng.choice([11, 12, 13]), 'relax']
+            return ['cat', rng.choice(CHARS), rng.choice([11, 12, 13]), rng.choice(NUMBER_ENDS)]
         if r < 0.62:
             return [rng.choice(['atletter', 'atother'])]
         if r < 0.66:
@@ -873,8 +924,28 @@ class PGen(object):
                 out.append(it)
         return out
 
+    def code(self, n):
+        """begin / end code of a \\newenvironment: non-grouping items (no \\let\\ql=c: the alias bookkeeping is lexical)"""
+        out = []
+        for _ in range(n):
+            it = self.simple(False)
+            out.append(it)
+        return out
+
+    def newenv(self, depth, in_math, in_arg, alias_visible):
+        rng = self.rng
+        nargs = rng.choice([0, 0, 1])
+        begin = self.code(rng.choice([0, 0, 1, 2]))
+        arg = self.code(rng.choice([0, 0, 1])) if nargs else []
+        body = self.items(depth + 1, in_math, in_arg, alias_visible) + ([['probe']] if rng.random() < 0.7 else [])
+        end = self.code(rng.choice([0, 0, 1, 2]))
+        return ['useenv', nargs, begin, end, arg, body, rng.choice(['here', 'top'])]
+
     def group(self, depth, in_math, in_arg, alias_visible):
         rng = self.rng
+        if rng.random() < 0.12:
+            node = self.newenv(depth, in_math, in_arg, alias_visible)
+            return [node, ['probe']] if rng.random() < 0.7 else [node]
         kinds = ['brace', 'brace', 'begingroup']
         if not in_math:
             kinds += ENVS + ['itemize', 'math', 'ddollar', 'dmath', 'tabular', 'textbf', 'emph', 'mbox', 'footnote', 'underline']
@@ -923,6 +994,22 @@ def small_progs():
     kinds = ['brace', 'begingroup'] + ENVS + ['itemize', 'math', 'ddollar', 'dmath'] + CMDS
     pre = [['def', 0, 90], ['gdef', 1, 91], ['probe']]
     post = [['use', 0], ['use', 1], ['probe']]
+    changes += [[['cat', 64, 11, ' ']], [['def', 0, 1], ['cat', 33, 13, ' ']]]
+    # \newenvironment-defined environments: empty / non-empty begin and end code, without / with an argument (empty, non-empty),
+    # defined here or at the top, used at top level and inside an enclosing group that has its own local change
+    envforms = []
+    for nargs, arg in [(0, []), (1, []), (1, [['def', 1, 7]])]:
+        for begin in [[], [['def', 1, 5]], [['cat', 33, 11, 'relax']]]:
+            for end in [[], [['use', 0], ['probe']]]:
+                envforms.append((nargs, begin, end, arg))
+    for ch in changes[:6] + changes[-2:]:
+        for nargs, begin, end, arg in envforms:
+            for where in ('here', 'top'):
+                env = ['useenv', nargs, begin, end, arg, ch + [['use', 0], ['probe']], where]
+                yield dict(kind='prog', prog=pre + [env] + post)
+                if where == 'here':
+                    for outer in ['brace', 'center', 'textbf']:
+                        yield dict(kind='prog', prog=pre + [['grp', outer, [['def', 0, 80], ['cat', 64, 11, 'relax'], env, ['use', 0], ['probe']]]] + post)
     for ch in changes:
         for kind in kinds:
             yield dict(kind='prog', prog=pre + [['grp', kind, ch + [['use', 0], ['probe']]]] + post)
@@ -939,11 +1026,11 @@ def small_progs():
 # extended streams: inputs in the statement's domain on which the implementation is known to deviate (known findings)
 
 def rand_lookahead(rng):
-    """a \\catcode whose number is not terminated by \\relax, directly before the end of its group"""
+    """a \\catcode whose digits are directly followed (no blank, no \\relax) by the token that ends its group"""
     kind = rng.choice(['brace', 'begingroup', 'center', 'math', 'dmath'])
     ch, code = rng.choice([(64, 11), (33, 11), (33, 13)])
     body = [['probe']] if rng.random() < 0.5 else []
-    body += [['cat', ch, code, rng.choice(['', ' '])]]
+    body += [['cat', ch, code, '']]      # (a blank after the digits is an ordinary input since /repo c654904)
     if rng.random() < 0.3:
         body += [['probe']]
     return dict(kind='prog', ext='lookahead', prog=[['probe'], ['grp', kind, body], ['probe']])
@@ -1085,6 +1172,10 @@ def tags(case, io):
                     kinds.add(it[0])
                     walk(it[2], d + 1)
                     walk(it[3], d + 2)
+                elif it[0] == 'useenv':
+                    kinds.add('newenvironment' + ('-emptybegin' if not it[2] and not it[4] else '') + ('-arg' if it[1] else ''))
+                    for x in (it[2], it[4], it[5], it[3]):
+                        walk(x, d + 1)
                 elif it[0] in ('cat', 'atletter', 'atother'):
                     kinds.add('catcode')
                 elif it[0] in ('gprefix', 'let', 'lettok', 'gdef'):
@@ -1267,6 +1358,14 @@ def shrink_items(items):
             yield items[:i] + it[2] + items[i + 1:]
             for b in shrink_items(it[2]):
                 yield items[:i] + [['grp', it[1], b]] + items[i + 1:]
+        elif it[0] == 'useenv':
+            yield items[:i] + it[2] + it[4] + it[5] + it[3] + items[i + 1:]
+            yield items[:i] + [['grp', 'brace', it[2] + it[4] + it[5] + it[3]]] + items[i + 1:]
+            for pos in (2, 3, 4, 5):
+                for b in shrink_items(it[pos]):
+                    yield items[:i] + [it[:pos] + [b] + it[pos + 1:7]] + items[i + 1:]
+            if it[1] and not it[4]:
+                yield items[:i] + [['useenv', 0] + it[2:7]] + items[i + 1:]
         elif it[0] in ('loose-env', 'loose-grp'):
             yield items[:i] + it[2] + it[3] + items[i + 1:]
             for b in shrink_items(it[2]):
@@ -1296,6 +1395,8 @@ def prog_ok(items, seen=None):
         elif it[0] == 'setcounter' and 'newcounter' not in seen:
             return False
         elif it[0] == 'grp' and not prog_ok(it[2], seen):
+            return False
+        elif it[0] == 'useenv' and not all(prog_ok(x, seen) for x in (it[2], it[4], it[5], it[3])):
             return False
         elif it[0] in ('loose-env', 'loose-grp') and not (prog_ok(it[2], seen) and prog_ok(it[3], seen)):
             return False
